@@ -180,11 +180,10 @@ impl Serialize for Grid {
     fn serialize<S: Serializer>(&self, serializer: S) -> Result<S::Ok, S::Error> {
         let mut map = serializer.serialize_map(Some(4))?;
         map.serialize_entry("_kind", "grid")?;
-        if self.meta.is_some() {
-            map.serialize_entry("meta", &self.meta)?;
-        } else {
-            map.serialize_entry("meta", &Dict::new())?;
-        }
+        // Hayson carries the grid version inside `meta`, where the decoder reads it from
+        let mut meta = self.meta.clone().unwrap_or_default();
+        meta.insert("ver".into(), HVal::make_str(&self.ver));
+        map.serialize_entry("meta", &meta)?;
         map.serialize_entry("cols", &self.columns)?;
         map.serialize_entry("rows", &self.rows)?;
         map.end()
